@@ -126,10 +126,20 @@ struct Dumper {
         constBytes(CV->getOperand(i), Out, Ok);
       return;
     }
-    // pointers to other globals etc.: not flattenable
+    // the address of a global object or function: recorded as a relocation (offset, symbol), bytes left zero
+    if (T->isPointerTy()) {
+      const Value *S = C->stripPointerCastsAndAliases();
+      if (auto *GV = dyn_cast<GlobalValue>(S)) {
+        Relocs.push_back({Out.size(), GV->getName().str()});
+        Out.append(Sz, '\0');
+        return;
+      }
+    }
+    // other constant expressions: not flattenable
     Ok = false;
     Out.append(Sz, '\0');
   }
+  std::vector<std::pair<size_t, std::string>> Relocs;
 
   void operand(const Value *V) {
     if (auto *CI = dyn_cast<ConstantInt>(V)) {
@@ -700,7 +710,17 @@ struct Dumper {
               std::string B;
               bool Ok = true;
               if (DL.getTypeAllocSize(G.getValueType()) <= (1u << 16)) {
+                Relocs.clear();
                 constBytes(G.getInitializer(), B, Ok);
+                if (Ok && !Relocs.empty()) {
+                  J.attributeArray("ptrs", [&] {
+                    for (auto &R : Relocs)
+                      J.array([&] {
+                        J.value((int64_t)R.first);
+                        J.value(R.second);
+                      });
+                  });
+                }
                 if (Ok) {
                   std::string Hex;
                   static const char *D = "0123456789abcdef";
